@@ -30,13 +30,11 @@ import json
 import os
 import random
 import re
-import subprocess
 import sys
 import time
 
 sys.path.insert(0, os.path.join(os.path.dirname(os.path.abspath(__file__)), "..", "lib"))
 import vlib
-import wildrun
 import symfam
 
 KINDS = ["S", "W", "C4", "C16", "U", "H", "P", "G", "AL", "AW", "DS", "DW"]
@@ -526,7 +524,7 @@ def main():
         # ---- wild, every agreed member on its own ----------------------------------------------
         work = [(mid, allm[mid], expect[mid]) for mid in agreed]
         outcomes, n_eval, nontrivial, crashes_as_error = {}, 0, 0, 0
-        cap = 600 if chk.thorough else 45         # wall cap of the wild phase
+        cap = 600 if chk.thorough else 60         # wall cap of the wild phase
         capped, tw = None, time.time()
         ext_kills = 0
         for res, kills in vlib.pmap_unordered(wild_task,
